@@ -348,12 +348,17 @@ Section Ops.
     | _, _ => false
     end.
 
+  (* SparselyBin and Categorize also compare the declared type of their bins *)
+  Definition ct_compat (k : nodekind) (ct1 ct2 : string) : bool :=
+    match k with KSparse _ _ | KCat => String.eqb ct1 ct2 | _ => true end.
+
   (* does a + b return (true) or raise (false) *)
   Fixpoint addable (a b : agg) {struct a} : bool :=
     match a, b with
     | Leaf k1 _ _, Leaf k2 _ _ => leafkind_compat k1 k2
-    | Node k1 _ _ fx1 sp1 _ _, Node k2 _ _ fx2 sp2 _ _ =>
-        kind_compat k1 k2 && forall2b addable fx1 fx2 && sl_common key_cmp addable sp1 sp2
+    | Node k1 _ _ fx1 sp1 _ ct1, Node k2 _ _ fx2 sp2 _ ct2 =>
+        kind_compat k1 k2 && ct_compat k1 ct1 ct2 && forall2b addable fx1 fx2
+        && sl_common key_cmp addable sp1 sp2
     | _, _ => false
     end.
 
@@ -377,8 +382,8 @@ Section Ops.
     match a, b with
     | Leaf k1 q s1, Leaf k2 _ s2 =>
         if leafkind_compat k1 k2 then (Leaf k1 q (leaf_add k1 s1 s2), Done) else (a, Raise)
-    | Node k1 q e1 fx1 sp1 tm ct, Node k2 _ e2 fx2 sp2 _ _ =>
-        if kind_compat k1 k2 && Nat.eqb (List.length fx1) (List.length fx2) then
+    | Node k1 q e1 fx1 sp1 tm ct, Node k2 _ e2 fx2 sp2 _ ct2 =>
+        if kind_compat k1 k2 && ct_compat k1 ct ct2 && Nat.eqb (List.length fx1) (List.length fx2) then
           (* entries first, then the children, each in place *)
           let e := e1 + e2 in
           let '(sp', o1) :=
